@@ -5,7 +5,7 @@
 From HbsLms Require Import Base.Bytes Model.Consts Model.Counter Model.KeyBlob Model.Codec Model.Hss
      Model.SignCore Model.History.
 From HbsLms Require Import Proofs.CounterProofs Proofs.KeyBlobProofs Proofs.SignProofs Proofs.TotalProofs
-     Proofs.HssComplete Proofs.HistoryProofs Gen.Generated.
+     Proofs.HssComplete Proofs.HistoryProofs Proofs.NoReuse Gen.Generated.
 
 Local Open Scope N_scope.
 
@@ -108,8 +108,50 @@ Theorem C03_same_one_time_key_same_content :
     = firstn (S m) (fst (expand K n H seed I p q below2)).
 Proof. intros K n H m. apply expand_prefix. Qed.
 
+(* End to end, over every history from a fresh key: the i-th and the j-th released signature
+   (i <> j) carry different leaf-index tuples, so the bottom one-time key (addressed by the
+   whole tuple) is never used twice; each signature is the level count, its signed public keys
+   and the bottom LMS signature; and whenever the two tuples agree on the levels 0 .. m, the
+   signed public keys of the levels 0 .. m are byte-identical: the one-time key of level m at
+   that address signed one content only (the same child public key, with the same randomizer). *)
+Theorem C03_no_one_time_key_reuse :
+  forall (n : nat) (H : bytes -> bytes) (ps : list param) (seed pb : bytes) (ops : list op),
+    In n hash_sizes -> (forall x, length (H x) = n) -> generated n ps seed pb ->
+    exists msgs : list bytes,
+      snd (run K_src n H ops (blob_at K_src n ps seed pb 0))
+      = map (fun im => sig_at K_src n H ps seed (N.of_nat (fst im)) (snd im))
+            (combine (seq 0 (length msgs)) msgs)
+      /\ (forall (c : N) (msg : bytes), exists tail,
+             sig_at K_src n H ps seed c msg
+             = be 4 (N.of_nat (length ps - 1)) ++ concat (signed_pks K_src n H ps seed c) ++ tail)
+      /\ forall i j : nat, (i < length msgs)%nat -> (j < length msgs)%nat -> i <> j ->
+           leaf_digits (heights_of ps) (N.of_nat i) <> leaf_digits (heights_of ps) (N.of_nat j)
+           /\ forall m : nat,
+               firstn (S m) (leaf_digits (heights_of ps) (N.of_nat i))
+               = firstn (S m) (leaf_digits (heights_of ps) (N.of_nat j)) ->
+               firstn (S m) (signed_pks K_src n H ps seed (N.of_nat i))
+               = firstn (S m) (signed_pks K_src n H ps seed (N.of_nat j)).
+Proof.
+  intros n H ps seed pb ops Hn HL G.
+  destruct (C03_history n H ps seed pb ops Hn HL G) as [msgs [E Hle]].
+  destruct G as [G1 G2 G3 G4 G5].
+  pose proof (model_ok_n n Hn) as OK. pose proof (fits ps G5) as FT.
+  assert (HLn : (length ps <= c_max_levels K_src)%nat) by (eapply Hlen; eassumption).
+  assert (HFw : Forall (wf_param K_src n) ps) by (eapply Fw; eassumption).
+  exists msgs. split; [now rewrite E|]. split.
+  - intros c msg.
+    destruct (hss_complete K_src n H HL (ok_ilen K_src n OK) (ok_levels K_src n OK) ps seed msg c G4 HLn HFw)
+      as [sig [pk [s [E1 _]]]].
+    unfold sig_at. rewrite E1. eapply signature_layout. exact E1.
+  - intros i j Hi Hj Hij. split.
+    + assert (Ht : N.of_nat (length msgs) <= 2 ^ sumN (heights_of ps)) by exact Hle.
+      apply C03_distinct_counters_distinct_leaf_tuples; lia.
+    + intros m. apply signed_pks_prefix.
+Qed.
+
 Print Assumptions C03_history.
 Print Assumptions C03_consecutive_keys.
 Print Assumptions C03_leaf_indices.
 Print Assumptions C03_distinct_counters_distinct_leaf_tuples.
 Print Assumptions C03_same_one_time_key_same_content.
+Print Assumptions C03_no_one_time_key_reuse.
